@@ -65,6 +65,16 @@ def call_cases(labels, cases, name='calls'):
                     want = P.value(text, **bind)
                     got = ev.args[ai] if ai < len(ev.args) else None
                     out.append((tag + '.call%d.arg%d' % (j, ai), wrapg(as_bool(P.eng.equal(got, want, P.st, P.frame)))))
+                for kw, text in (opts.get('kwargs') or {}).items():
+                    if kw not in ev.kwargs:
+                        out.append((tag + '.call%d.kw_%s' % (j, kw), z3.Not(w)))
+                        continue
+                    want = P.value(text, **bind)
+                    out.append((tag + '.call%d.kw_%s' % (j, kw), wrapg(as_bool(P.eng.equal(ev.kwargs[kw], want, P.st, P.frame)))))
+                if 'kwargs' in opts and opts.get('exact_kwargs', True):
+                    extra_kw = sorted(set(ev.kwargs) - set(opts['kwargs']) - {'name'})
+                    if extra_kw:
+                        out.append((tag + '.call%d.unexpected_kwargs' % j, z3.Not(w)))
         return out
     clause.__doc__ = 'call-argument obligations for %s' % (labels,)
     return clause
@@ -84,3 +94,66 @@ def lemma(name, prop, hyps, goal, detail=''):
 def structural(name, prop, ok, detail=''):
     """Obligation on the parse tree itself (decided without a solver but reported uniformly)."""
     return Obligation('%s/%s' % (prop, name), [], z3.BoolVal(bool(ok)), meta={'detail': detail})
+
+
+# ---------------------------------------------------------------------------------------------- coherence (derived state)
+import ast as _ast
+
+
+def self_attrs_read(fn):
+    """Attributes `self.<a>` loaded in a function body (the read set of a builder)."""
+    out = set()
+    for n in _ast.walk(fn):
+        if isinstance(n, _ast.Attribute) and isinstance(n.value, _ast.Name) and n.value.id == 'self' and isinstance(n.ctx, _ast.Load):
+            out.add(n.attr)
+    return out
+
+
+def self_attrs_written(fn):
+    out = set()
+    for n in _ast.walk(fn):
+        if isinstance(n, _ast.Attribute) and isinstance(n.value, _ast.Name) and n.value.id == 'self' and isinstance(n.ctx, _ast.Store):
+            out.add(n.attr)
+    return out
+
+
+def class_setters(tree, file, cls):
+    """{property name: setter FunctionDef} of a class (parse tree)."""
+    mod = tree.module(file)
+    out = {}
+    for c in mod.body:
+        if isinstance(c, _ast.ClassDef) and c.name == cls:
+            for n in c.body:
+                if isinstance(n, _ast.FunctionDef):
+                    for d in n.decorator_list:
+                        u = _ast.unparse(d)
+                        if u.endswith('.setter'):
+                            out[u[:-7]] = n
+    return out
+
+
+def rebuilt_after_writes(label, attrs, recv="self", name=None):
+    """Ensures-clause: the derived state is rebuilt from the FINAL parameter values - the last logged call `label` (the builder, or
+    a notification) has receiver `recv` and none of the attributes `attrs` of self was written after it."""
+    def clause(P):
+        tag = name or ('coherence.' + label)
+        evs = [e for e in P.st.log if e.label == label or e.label.split('.')[-1] == label]
+        if not evs:
+            return [(tag, z3.BoolVal(False))]
+        ev = evs[-1]
+        if ev.loop:
+            return [(tag, z3.BoolVal(False))]
+        conj = [as_bool(P.eng.identical(ev.recv, P.value(recv)))]
+        me = P.value("self")
+        for a in sorted(attrs):
+            spec = P.eng.attr_spec(P.frame, me, a)
+            from pyvc.values import sortkey
+            fid = '%s:%s' % (a, sortkey(spec))
+            cur = P.eng.field(P.st, fid)
+            then = ev.heap.get(fid) if ev.heap is not None else None
+            if then is None:
+                then = P.eng.heap0.get(fid, cur)
+            conj.append(cur[me.ref] == then[me.ref])
+        return [(tag, z3.And(*conj))]
+    clause.__doc__ = 'derived state rebuilt (%s) after the last write to %s' % (label, sorted(attrs))
+    return clause
